@@ -305,6 +305,41 @@ def main():
         if t[1] != "0" or t[2] != "1":
             ck.violation("basisopt_%d.txt" % k, "esolver -b b.bas %s ; basis file:\n%s" % (files[k][0], read_sol(os.path.join(d, "b%d.bas" % k))),
                          "the basis written by esolver -b for %s is not accepted as optimal by QSexact_basis_optimalstatus (%s)" % (files[k][0], t[1:]), match=dict(kind="basis-not-optimal"))
+    # ---- transport invariance: the same text offered plain / .gz / .bz2, with and without a final newline, is the same problem
+    #      (the library reads all of them through EGio line by line): esolver must report the same status and value
+    base_res = {}
+    for r, (rc_, er) in zip(runs, res):
+        if r["j"] == 0 and rc_ == 0:
+            tx = read_sol(os.path.join(d, r["sol"])) or ""
+            base_res[r["k"]] = [l for l in tx.split("\n")[:3] if l.startswith("status") or "Value" in l]
+    vruns = []
+    cand = [k for k, (fn, fmt, needL) in enumerate(files) if k in base_res and not needL and not fn.endswith((".gz", ".bz2")) and fn != "big.lp"]
+    rng.shuffle(cand)
+    for k in cand[:(40 if ck.thorough() else 10)]:
+        fn, fmt, _ = files[k]
+        raw = open(os.path.join(d, fn), "rb").read()
+        stripped = raw.rstrip(b"\r\n \t")
+        e = "lp" if fmt == "LP" else "mps"
+        for tag, data, ext in (("nonl", stripped, ""), ("nonl", gzip.compress(stripped), ".gz"), ("nonl", bz2.compress(stripped), ".bz2"),
+                               ("same", gzip.compress(raw), ".gz"), ("same", bz2.compress(raw), ".bz2")):
+            vfn = "v%d_%s.%s%s" % (k, tag, e, ext)
+            open(os.path.join(d, vfn), "wb").write(data)
+            vruns.append(dict(k=k, vfn=vfn, sol="v%d_%s%s.sol" % (k, tag, ext.replace(".", "_")), tag=tag + ext))
+    with ThreadPoolExecutor(max_workers=12) as ex:
+        vres = list(ex.map(lambda r: run_esolver(exe, ["-O", r["sol"], r["vfn"]], d), vruns))
+    nvar = 0
+    for r, (rc_, er) in zip(vruns, vres):
+        nvar += 1
+        ck.count(("variant", files[r["k"]][0], r["tag"]))
+        tx = read_sol(os.path.join(d, r["sol"])) if rc_ == 0 else None
+        got = [l for l in (tx or "").split("\n")[:3] if l.startswith("status") or "Value" in l]
+        if rc_ != 0 or got != base_res[r["k"]]:
+            ck.violation("transport_%d_%s.txt" % (r["k"], r["tag"].replace(".", "_")),
+                         "# file %s (offered as %s: %s):\n%s\n# esolver on the original: %s\n# esolver on the variant: exit %s %s\n" % (
+                             files[r["k"]][0], r["vfn"], r["tag"], read_sol(os.path.join(d, files[r["k"]][0])), base_res[r["k"]], rc_, got),
+                         "the same text offered as %s (%s) is not read as the same problem: esolver exit %s, %s instead of %s" % (r["vfn"], r["tag"], rc_, got, base_res[r["k"]]),
+                         match=dict(kind="transport-variant", tag=r["tag"]))
+    ck.cov["transport_variant_runs"] = nvar
     # ---- unreadable / malformed input: non-zero exit, no signal
     badfiles = {"empty.lp": b"", "garbage.mps": bytes(rng.randrange(256) for _ in range(300)), "trunc.lp": b"max\n obj: x +", "truncated.lp.gz": gzip.compress(b"max\n x\nst\n x <= 1\nend\n")[:14], "damaged.lp.bz2": bz2.compress(b"max\n x\nst\n x <= 1\nend\n")[:30] + b"xxxxxxxx",
                 "nocons.lp": b"max\n x\nend\n", "badsec.mps": b"NAME x\nROWS\n Q r1\nENDATA\n", "wrongtype.mps": b"max\n x\nst\n x <= 1\nend\n"}
